@@ -72,7 +72,7 @@ def specOp (toks expect : List String) (impl : List String) : List String :=
     | "prefix" =>    -- implementation output must start with these tokens
       if fields.isPrefixOf impl then [] else [s!"{id} expected-prefix-differs"]
     | "msgs" =>      -- impl = n=<k> <hex>…: exactly these messages, in order, each with its headers and body
-      let outs := impl.drop 1
+      let outs := (impl.drop 1).filter (fun t => !t.startsWith "closed=")
       if impl.head? != some s!"n={fields.length}" || outs.length != fields.length then [s!"{id} extracted-{impl.headD "?"}-expected-n={fields.length}"]
       else
         (fields.zip outs).flatMap fun (e, o) =>
@@ -92,6 +92,8 @@ def specOp (toks expect : List String) (impl : List String) : List String :=
         (Spec.relayViolations (unhex d) (unhex o)).map (fun v => s!"{id} relayed-datagram-{v}") ++
         (if rest.isEmpty then [] else [s!"{id} one-datagram-several-messages"])
       | _, _ => []
+    | "closed" =>      -- C08: a TCP connection whose stream stops decoding (truncated, garbage, plain end) is closed
+      if impl.contains "closed=1" then [] else [s!"{id} connection-left-open-after-undecodable-input"]
     | "accepted" =>    -- a complete well-formed datagram is decoded whatever was received before it
       if impl.head? == some "ok" then [] else [s!"{id} well-formed-datagram-not-decoded-{impl.headD "?"}"]
     | "robust" =>
